@@ -175,7 +175,25 @@ def fdiv(a, b):
         return a
     if _conc(b) and b == 0:
         return DIVZERO(a)
+    if is_sym(b) and z3.is_const(b) and b.decl().kind() == z3.Z3_OP_UNINTERPRETED:
+        # division by an atomic symbol: multiply by a named reciprocal (keeps the
+        # obligations polynomial); the axiom b*inv(b)=1 is supplied by the checks
+        return fmul(a, reciprocal(b))
     return R(a) / R(b)
+
+
+INV = {}
+
+
+def reciprocal(b):
+    key = str(b)
+    if key not in INV:
+        INV[key] = (b, z3.Real(f"inv({key})"))
+    return INV[key][1]
+
+
+def inv_axioms():
+    return [z3.Implies(b != 0, b * i == 1) for b, i in INV.values()]
 
 
 _divzero = z3.Function("div_by_literal_zero", z3.RealSort(), z3.RealSort())
@@ -563,6 +581,7 @@ class Machine:
         g = self.globs.get(name)
         if g is None:
             return None
+        g = re.sub(r"(, (align \d+|comdat(\([^)]*\))?|section \"[^\"]*\"|!\w+ !\d+))+\s*$", "", g)
         m = re.match(r"^((?:[\w()]+ )*?)(global|constant) (.*)$", g)
         if not m:
             return None
@@ -1267,6 +1286,13 @@ class Machine:
         }[pred]
         return f()
 
+    @staticmethod
+    def _bits(v, byte_off, nbytes):
+        x = (v >> (8 * byte_off)) & ((1 << (8 * nbytes)) - 1)
+        if x >= 1 << (8 * nbytes - 1):
+            x -= 1 << (8 * nbytes)
+        return x
+
     def load(self, st, p, ty):
         n, _ = self.type_size_align(ty)
         if not isinstance(p, Ptr):
@@ -1291,6 +1317,17 @@ class Machine:
         if not self.check(st, p, n, "load"):
             return self.init_cell(p.obj + "!oob", p.off, ty)
         v = st.load(p.obj, p.off)
+        if ty in ("i32", "i16", "i8") and not ty.endswith("*"):
+            # an i64 store (SROA-merged pair of ints) read back as i32 halves
+            if v is not None and isinstance(v, int) and not isinstance(v, bool) and (st.load(p.obj, ("w", p.off)) or 0) > n:
+                v = self._bits(v, 0, n)
+            elif v is None:
+                for back in (4, 2, 1, 6, 3, 5, 7):
+                    v2 = st.load(p.obj, p.off - back)
+                    w2 = st.load(p.obj, ("w", p.off - back)) or 0
+                    if v2 is not None and isinstance(v2, int) and not isinstance(v2, bool) and w2 >= back + n:
+                        v = self._bits(v2, back, n)
+                        break
         if v is None:
             v = self.init_cell(p.obj, p.off, ty)
         elif isinstance(v, Fraction) and ty != "double" and v.denominator == 1 and not ty.endswith("*"):
@@ -1307,6 +1344,10 @@ class Machine:
             if not self.check(st, p, n, "store"):
                 return
         st.store(p.obj, p.off, v)
+        if ty == "i64" and isinstance(v, int) and not isinstance(v, bool):
+            st.store(p.obj, ("w", p.off), 8)
+        elif st.load(p.obj, ("w", p.off)):
+            st.store(p.obj, ("w", p.off), 0)
         hook = self.store_hooks.get(p.obj) if hasattr(self, "store_hooks") else None
         if hook:
             hook(st, p, v)
